@@ -16,7 +16,9 @@
 (*              `write` method (sc.obj[p]) is always written, changed True  *)
 (*   WriteTeX   Write.run on the rendered template                         *)
 (*   LaTeX      LaTeXToPDF.run: skip iff pdf exists, not overwrite and      *)
-(*              changed is False (changed absent: the tex is newer)        *)
+(*              changed is False                                           *)
+(*   LaTeXByTime  the same when changed is absent: the modification times   *)
+(*              decide (changed = the tex is newer than the pdf)           *)
 (*   PNG        PDFToPNG.run: skip iff png exists, not overwrite and        *)
 (*              changed is not True                                        *)
 (* output.changed travels with the value: "U" absent, "F", "T".             *)
@@ -27,7 +29,7 @@
 (* (a created file leaves output.changed as it was) - TLC refutes           *)
 (* Regenerated / AllCurrent for it.                                         *)
 (***************************************************************************)
-EXTENDS OutputRef, Json
+EXTENDS OutputSem, Json
 
 CONSTANTS Plans,       \* what is explored: set of pipelines with their bounds
                        \* [srcs: sources per plot, obj: the source is an object with a write method,
@@ -48,7 +50,8 @@ VARIABLES sc,                          \* the pipeline of this history
           reuse, cached,               \* are the objects reused; template version held by the RenderLaTeX
                                        \* object (0: none)
           dataVer, tplVer, files,      \* dataVer[p][m]; files[p] = [csv (one per source), tex, pdf, png]
-          texNewer,                    \* the tex was written after the pdf (modification times)
+          texNewer, preNewer,          \* the tex was written after the pdf (modification times); (ghost) the same
+                                       \* when the current / last run started
           set,                         \* the settings of this history
           runs, ph, cur, mem, ch, mch, \* runs completed; stage; plot and source in work; output.changed of
                                        \* the value in work; flags of the sources handled so far
@@ -56,9 +59,9 @@ VARIABLES sc,                          \* the pipeline of this history
           touched, rank, fresh, rt,    \* touched since the last run; canonical order; nothing touched since
                                        \* the run that just ended; what had been touched before that run
           h
-vars == <<sc, reuse, cached, dataVer, tplVer, files, texNewer, set, runs, ph, cur, mem, ch, mch, wrote, launched,
+vars == <<sc, reuse, cached, dataVer, tplVer, files, texNewer, preNewer, set, runs, ph, cur, mem, ch, mch, wrote, launched,
           chOut, pre, touched, rank, fresh, rt, h>>
-view == <<sc, reuse, cached, dataVer, tplVer, files, texNewer, set, runs, ph, cur, mem, ch, mch, wrote, launched,
+view == <<sc, reuse, cached, dataVer, tplVer, files, texNewer, preNewer, set, runs, ph, cur, mem, ch, mch, wrote, launched,
           chOut, pre, touched, rank, fresh, rt>>
 
 NP == Len(sc.srcs)
@@ -97,6 +100,12 @@ PlansThoroughMC2 == {Plan(Plain(2), 3, 2, "All", "Both"), Plan(Group(<<2>>), 3, 
                     {Plan(s, 3, 2, "Quick", "Both") : s \in {Group(<<3>>), Group(<<2, 2>>), Group(<<2, 3>>), Obj1, Obj2, Obj3}}
 PlansPinned == {Plan(Plain(1), 3, 99, "Default", "Fresh"), Plan(Group(<<2>>), 2, 99, "Default", "Fresh")}
 PlansNoReload == {Plan(Plain(1), 3, 99, "Default", "Reused")}
+\* the pinned design explored in full (its closed form RunPlot(FALSE, ...) is the oracle of the known finding)
+PlansPinnedSem == {Plan(Plain(1), 3, 99, "Quick", "Both"), Plan(Plain(2), 2, 3, "Default", "Fresh"),
+                   Plan(Group(<<2>>), 3, 2, "Default", "Fresh"), Plan(Obj2, 2, 2, "Default", "Fresh")}
+PlansPinnedSemThorough == {Plan(Plain(1), 4, 99, "All", "Both"), Plan(Plain(2), 3, 3, "Quick", "Both"),
+                           Plan(Group(<<2>>), 3, 99, "Quick", "Fresh"), Plan(Group(<<2, 3>>), 3, 2, "Default", "Fresh"),
+                           Plan(Obj2, 3, 2, "Quick", "Both")}
 \* export (quick: the harness replays one deterministic half of the plain histories with reused objects)
 PlansQuickExport == {Plan(Plain(1), 3, 2, "Default", "Fresh"), Plan(Plain(1), 2, 2, "Options", "Fresh"),
                      Plan(Group(<<2>>), 2, 2, "Quick", "Fresh"), Plan(Group(<<2>>), 3, 1, "Default", "Fresh"),
@@ -113,7 +122,7 @@ Init == /\ sc \in Plans /\ set \in SetsOf(sc.sets)
         /\ dataVer = [p \in 1..Len(sc.srcs) |-> [m \in 1..sc.srcs[p] |-> 1]] /\ tplVer = 1
         /\ files = [p \in 1..Len(sc.srcs) |-> [csv |-> [m \in 1..sc.srcs[p] |-> Absent], tex |-> Absent,
                                                pdf |-> Absent, png |-> Absent]]
-        /\ texNewer = [p \in 1..Len(sc.srcs) |-> FALSE]
+        /\ texNewer = [p \in 1..Len(sc.srcs) |-> FALSE] /\ preNewer = texNewer
         /\ runs = 0 /\ ph = "idle" /\ cur = 0 /\ mem = 0 /\ ch = "U" /\ mch = <<>>
         /\ wrote = [p \in 1..Len(sc.srcs) |-> [csv |-> [m \in 1..sc.srcs[p] |-> FALSE], tex |-> FALSE]]
         /\ launched = [p \in 1..Len(sc.srcs) |-> NoLaunch]
@@ -128,7 +137,7 @@ DataRank(p, m) == 10 * NP + 4 * (p - 1) + m
 TplRank == 14 * NP + 1
 CanTouch(r) == ph = "idle" /\ runs >= 1 /\ runs < MaxRuns /\ r > rank
                /\ Len(touched.del) + Len(touched.data) + (IF touched.tpl THEN 1 ELSE 0) < MaxTouch
-Keep == UNCHANGED <<sc, reuse, cached, texNewer, set, runs, ph, cur, mem, ch, mch, wrote, launched, chOut, pre, rt, h>>
+Keep == UNCHANGED <<sc, reuse, cached, texNewer, preNewer, set, runs, ph, cur, mem, ch, mch, wrote, launched, chOut, pre, rt, h>>
 DeleteCsv(p, m) == /\ CanTouch(DelRank(p, "csv", m)) /\ ~files[p].csv[m].a
                    /\ files' = [files EXCEPT ![p].csv[m] = Absent]
                    /\ touched' = [touched EXCEPT !.del = Append(@, <<p, "csv", m>>)]
@@ -160,23 +169,15 @@ StartRun == /\ ph = "idle" /\ runs < MaxRuns
             /\ ph' = "csv" /\ cur' = 1 /\ mem' = 1 /\ ch' = "U" /\ mch' = <<>>
             /\ wrote' = [p \in Plots |-> NoWrite(p)] /\ launched' = [p \in Plots |-> NoLaunch]
             /\ chOut' = [p \in Plots |-> "U"] /\ pre' = files /\ fresh' = FALSE
-            /\ rt' = touched /\ touched' = NoTouch /\ rank' = 0
+            /\ rt' = touched /\ touched' = NoTouch /\ rank' = 0 /\ preNewer' = texNewer
             \* new objects have loaded no template yet
             /\ cached' = IF reuse THEN cached ELSE 0
             /\ UNCHANGED <<sc, reuse, dataVer, tplVer, files, texNewer, set, runs, h>>
 
-\* Write.run on one value (docstring of Write.run): [f: the file afterwards, ch, w: written]
-WriteEl(mode, file, content, c) ==
-  IF file.a THEN [f |-> content, ch |-> IF CreatedSetsChanged THEN "T" ELSE c, w |-> TRUE]
-  ELSE IF mode = "existing_unchanged" THEN [f |-> file, ch |-> IF c = "U" THEN "F" ELSE c, w |-> FALSE]
-  ELSE IF mode = "overwrite" \/ file # content THEN [f |-> content, ch |-> "T", w |-> TRUE]
-  ELSE [f |-> file, ch |-> IF c = "U" THEN "F" ELSE c, w |-> FALSE]
-\* "objects with a method write ... doesn't allow to learn whether the file has changed": always written
-WriteObj(content) == [f |-> content, ch |-> "T", w |-> TRUE]
-\* group_plots / MapGroup: output.changed of a group from those of its members
-Combine(flags) == IF \E i \in 1..Len(flags) : flags[i] = "T" THEN "T" ELSE "F"
+\* the elements as functions: OutputSem.tla (WriteElP, WriteObj, Combine, LaTeXEl, PNGEl)
+WriteEl(mode, file, content, c) == WriteElP(CreatedSetsChanged, mode, file, content, c)
 
-InRun == UNCHANGED <<sc, reuse, dataVer, tplVer, set, runs, cur, chOut, pre, touched, rank, fresh, rt, h>>
+InRun == UNCHANGED <<sc, reuse, dataVer, tplVer, set, runs, cur, chOut, pre, preNewer, touched, rank, fresh, rt, h>>
 \* RenderLaTeX: the template version that is rendered now
 Rendered == IF reuse /\ cached # 0 /\ ~AutoReload THEN cached ELSE tplVer
 WriteCSV == /\ ph = "csv"
@@ -197,33 +198,34 @@ WriteTeX == /\ ph = "tex"
                  /\ texNewer' = [texNewer EXCEPT ![cur] = @ \/ r.w]
             /\ cached' = Rendered
             /\ ph' = "pdf" /\ InRun /\ UNCHANGED <<launched, mem, mch>>
-LaTeX == /\ ph = "pdf"
-         /\ LET c == IF ch = "U" THEN (IF files[cur].pdf.a \/ texNewer[cur] THEN "T" ELSE "F") ELSE ch
-                skip == ~set.lo /\ ~files[cur].pdf.a /\ c # "T" IN
-              IF skip THEN /\ ch' = "F" /\ UNCHANGED <<files, launched, texNewer>>
-              ELSE /\ files' = [files EXCEPT ![cur].pdf =
-                                  C(files[cur].tex.t, [m \in 1..NS(cur) |-> files[cur].csv[m].d[1]])]
-                   /\ launched' = [launched EXCEPT ![cur].pdf = TRUE]
-                   /\ texNewer' = [texNewer EXCEPT ![cur] = FALSE] /\ ch' = "T"
+\* LaTeXToPDF: two named actions - output.changed is there / is absent (decided by the modification times)
+LaTeXBody ==
+         /\ LET r == LaTeXEl(set.lo, files[cur].tex, files[cur].csv, files[cur].pdf, texNewer[cur], ch) IN
+              /\ files' = [files EXCEPT ![cur].pdf = r.f]
+              /\ launched' = [launched EXCEPT ![cur].pdf = r.l]
+              /\ texNewer' = [texNewer EXCEPT ![cur] = IF r.l THEN FALSE ELSE @]
+              /\ ch' = r.ch
          /\ ph' = "png" /\ InRun /\ UNCHANGED <<wrote, mem, mch, cached>>
+LaTeX == ph = "pdf" /\ ch # "U" /\ LaTeXBody
+LaTeXByTime == ph = "pdf" /\ ch = "U" /\ LaTeXBody
 Rec == [touched |-> rt,
         exp |-> [p \in Plots |-> [files |-> files'[p], wrote |-> wrote[p], launched |-> launched'[p], ch |-> chOut'[p]]]]
 PNG == /\ ph = "png"
-       /\ LET skip == ~files[cur].png.a /\ ~set.po /\ ch # "T" IN
-            IF skip THEN /\ chOut' = [chOut EXCEPT ![cur] = "F"] /\ UNCHANGED <<files, launched>>
-            ELSE /\ files' = [files EXCEPT ![cur].png = files[cur].pdf]
-                 /\ launched' = [launched EXCEPT ![cur].png = TRUE]
-                 /\ chOut' = [chOut EXCEPT ![cur] = "T"]
+       /\ LET r == PNGEl(set.po, files[cur].pdf, files[cur].png, ch) IN
+            /\ files' = [files EXCEPT ![cur].png = r.f]
+            /\ launched' = [launched EXCEPT ![cur].png = r.l]
+            /\ chOut' = [chOut EXCEPT ![cur] = r.ch]
        /\ IF cur < NP THEN /\ cur' = cur + 1 /\ ph' = "csv" /\ ch' = "U"
                            /\ UNCHANGED <<runs, fresh, h>>
           ELSE /\ ph' = "idle" /\ cur' = 0 /\ ch' = "U" /\ runs' = runs + 1 /\ fresh' = TRUE
                /\ h' = IF KeepHistory THEN Append(h, Rec) ELSE h
-       /\ UNCHANGED <<sc, reuse, cached, dataVer, tplVer, texNewer, set, wrote, pre, touched, rank, rt, mem, mch>>
+       /\ UNCHANGED <<sc, reuse, cached, dataVer, tplVer, texNewer, preNewer, set, wrote, pre, touched, rank, rt, mem, mch>>
 
 DeleteCsvAny == \E p \in Plots : \E m \in 1..NS(p) : DeleteCsv(p, m)
 DeleteOtherAny == \E p \in Plots, k \in {"tex", "pdf", "png"} : DeleteOther(p, k)
 ChangeDataAny == \E p \in Plots : \E m \in 1..NS(p) : ChangeData(p, m)
-Next == DeleteCsvAny \/ DeleteOtherAny \/ ChangeDataAny \/ ChangeTpl \/ StartRun \/ WriteCSV \/ WriteTeX \/ LaTeX \/ PNG
+Next == DeleteCsvAny \/ DeleteOtherAny \/ ChangeDataAny \/ ChangeTpl \/ StartRun \/ WriteCSV \/ WriteTeX \/ LaTeX
+        \/ LaTeXByTime \/ PNG
 Spec == Init /\ [][Next]_vars
 
 (***************************************************************************)
@@ -249,6 +251,18 @@ SkippedUntouched == fresh => \A p \in Plots : /\ (~launched[p].pdf => files[p].p
                                                /\ (~wrote[p].tex => files[p].tex = pre[p].tex)
 \* a group is redone as a whole as soon as one of its sources was rewritten
 GroupRedone == fresh => \A p \in Plots : AnyCsv(wrote[p]) => launched[p].pdf /\ launched[p].png
+\* operational = closed form: the interleaved element actions of a run leave, for every plot, exactly what
+\* RunPlot (OutputSem.tla) says - the function Trace_Output.tla uses to tell the known finding from anything else
+Sem(p) == RunPlot(CreatedSetsChanged, set, sc.obj[p], sc.grouped, pre[p], preNewer[p], dataVer[p], tplVer)
+SemOK == fresh => \A p \in Plots : /\ files[p] = Sem(p).files /\ wrote[p] = Sem(p).wrote /\ launched[p] = Sem(p).launched
+                                    /\ chOut[p] = Sem(p).ch /\ texNewer[p] = Sem(p).newer
+\* the documented Write always reports output.changed: the flag is never absent at LaTeXToPDF
+FlagPresent == CreatedSetsChanged => (ph = "pdf" => ch # "U")
+\* whatever Write does about the flag of created files (documented or pinned): when output.changed reaches
+\* LaTeXToPDF absent, the tex has just been written, it is newer than any pdf, and pdf and png are made anew
+AbsentFlagRedone == fresh => \A p \in Plots : Sem(p).chPdf = "U" => launched[p].pdf /\ launched[p].png /\ chOut[p] = "T"
+\* ... and the plot is then up to date
+AbsentFlagCurrent == fresh => \A p \in Plots : Sem(p).chPdf = "U" => files[p] = Current(tplVer, dataVer[p])
 TypeOK == /\ ph \in {"idle", "csv", "tex", "pdf", "png"} /\ ch \in {"U", "F", "T"} /\ runs \in 0..MaxRuns
           /\ cur \in 0..NP /\ set \in SettingsAll
 
